@@ -62,7 +62,9 @@ def configurations(ctx, thorough=None):
 def source_state():
     y = os.path.join(yvlib.REPO, "yarel")
     return yvlib.sha(os.path.join(y, "src"), os.path.join(y, "Cargo.toml"), os.path.join(y, "build.rs"),
-                     os.path.join(yvlib.VERIF, "harness", "src"), os.path.join(yvlib.VERIF, "harness", "Cargo.toml"))
+                     # of the harness only what the commands used here (run, mods, config) are made of: other owners'
+                     # ext_cXX.rs files change all the time and do not matter
+                     *[os.path.join(yvlib.VERIF, "harness", f) for f in ("src/main.rs", "src/extra.rs", "src/ext_c10.rs", "Cargo.toml")])
 
 
 def build_all(ctx, cfgs):
